@@ -323,6 +323,16 @@ async def main():
     # a process talks to several terminals; the tasks that talk to one
     # terminal share its Terminal object and hence its lock object
     locks = {no: ParallelMailboxLock(lf, no) for no in (1042, 1043)}
+    # a process connected to two EtherCAT loops, which both have a terminal
+    # 1042: the terminals get their locks the way Terminal does, from their
+    # loop object, each loop with its own lock file
+    if sys.argv[7] == "2":
+        from ebpfcat.ebpfcat import ParallelEtherCat
+        for li in (0, 1):
+            ec = ParallelEtherCat("vf%%d" %% li)
+            ec.mbx_lock_file = lf if li == 0 else LockFile(path + ".b", 1000, 1100)
+            for no in (1042, 1043):
+                locks[no + 100000 * li] = ec.get_mbx_lock(no)
 
     async def user(no):
         lock = locks[no]
@@ -355,10 +365,12 @@ async def main():
             del lock, lf2
             for _ in range(rng.randint(1, 6)):
                 await asyncio.sleep(0)
+    users = [user(1042), user(1043), user(1042)]
+    if sys.argv[7] == "2":
+        users.append(user(101042))
     if sys.argv[6] == "1":
-        await asyncio.gather(user(1042), user(1043), user(1042), visitor())
-    else:
-        await asyncio.gather(user(1042), user(1043), user(1042))
+        users.append(visitor())
+    await asyncio.gather(*users)
 asyncio.run(main())
 '''
 
@@ -370,10 +382,11 @@ def xproc_round(rng, tmpdir, res):
     script = WORKER % dict(repo=REPO)
     delays = rng.random() < 0.7
     visitor = rng.random() < 0.5
+    loops = rng.choice([1, 2])
     procs = [subprocess.Popen([PYTHON, "-c", script, path, str(w), str(m),
                                str(rng.getrandbits(30)),
                                "1" if delays else "0",
-                               "1" if visitor else "0"],
+                               "1" if visitor else "0", str(loops)],
                               stderr=subprocess.PIPE)
              for w in range(nproc)]
     errs = []
@@ -390,6 +403,9 @@ def xproc_round(rng, tmpdir, res):
                 injected_delays=delays, pickled_lock_file_copies=visitor)
     if visitor:
         res.count("xproc_rounds_with_pickled_lock_file_copies")
+    if loops == 2:
+        desc["loops"] = 2
+        res.count("xproc_rounds_with_two_loops_per_process")
     res.count("xproc_rounds_" + ("with_delays" if delays else "plain"))
     with open(path + ".log") as f:
         lines = [l.split() for l in f.read().splitlines()]
